@@ -94,6 +94,7 @@ def gen_case(rng, tier, idx):
         case["reg"] = c11mod.gen_case(rng, tier, rng.randrange(1000))
     # a second instance elaborated between two elaborations of the judged one: identical parameters, the same
     # parameters with one of them varied (the sharing limit, for multiplexers), or unrelated parameters
+    case["mid_elab_after"] = rng.choice([None, None, 1, 2, 3, 4])
     case["twin"] = rng.choice([None, None, "same", "variant", "variant", "other"])
     case["twin_overlaps"] = rng.choice([None, 0, 0, 1, 2])
     return case
@@ -234,6 +235,7 @@ def b_csrdec(case, rng, P):
             dec.add(sub, name=rng.choice([None, f"w{i}", ("w", i)]),
                     addr=None if rng.random() < 0.6 else rng.randrange(1 << aw) // (1 << k) * (1 << k))
             subs.append(sub)
+            mid_elaboration(case, P, dec, len(subs))
             late_resource(rng, P, f"s{i}", sub.memory_map)
         except (ValueError, TypeError) as e:
             P.setdefault("refused_adds", []).append(judge_exception(e))
@@ -272,6 +274,7 @@ def b_wbdec(case, rng, P):
         try:
             dec.add(sub, name=rng.choice([None, f"w{i}"]), sparse=sparse)
             subs.append(sub)
+            mid_elaboration(case, P, dec, len(subs))
             late_resource(rng, P, f"s{i}", sub.memory_map, csr_map=False)
         except (ValueError, TypeError) as e:
             P.setdefault("refused_adds", []).append(judge_exception(e))
@@ -303,6 +306,7 @@ def b_arb(case, rng, P):
         try:
             arb.add(ib)
             intrs.append(ib)
+            mid_elaboration(case, P, arb, len(intrs))
         except (ValueError, TypeError) as e:
             P.setdefault("refused_adds", []).append(judge_exception(e))
             refused.append(ib)
@@ -405,6 +409,18 @@ def b_action(case, rng, P):
         P["init"] = init
         return cls(shape, init=init), [], lambda: None, None
     return cls(shape), [], lambda: None, None
+
+
+def mid_elaboration(case, P, comp, n_added):
+    """Bring-up: the component is elaborated (and thrown away) when only some of its subordinates / initiators are
+    attached; more are added afterwards. The finished instance must be the hardware a never-elaborated instance
+    of the same configuration is (compared in run_case)."""
+    if case.get("mid_elab_after") == n_added:
+        try:
+            Fragment.get(Top({"bringup": comp}), None)
+            P["mid_elaborated_after"] = n_added
+        except Exception:
+            pass
 
 
 class LateRes(wiring.Component):
@@ -637,6 +653,31 @@ def run_case(case):
                                           f"{a[diff] if diff < len(a) else '<eof>'!r} vs {b[diff] if diff < len(b) else '<eof>'!r}",
                                    "detail": {"params": P}})
             break
+    if P.get("mid_elaborated_after") and texts:
+        # the same configuration built afresh, never elaborated before completion, is the same hardware
+        fcase = copy.deepcopy(case)
+        fcase["mid_elab_after"] = None
+        _SPELL["rng"] = random.Random(case["stim_seed"] + ":spell")
+        try:
+            fdut, fextra, _fm, _ff = BUILDERS[kind](fcase, random.Random(case["stim_seed"]), {})
+            fports = []
+            for obj in [fdut] + list(fextra):
+                for s_ in all_signals(obj):
+                    if not any(s_ is p_ for p_ in fports):
+                        fports.append(s_)
+            ftext = rtlil.convert(Top({"dut": fdut}), ports=fports, emit_src=False)
+        except Exception:
+            ftext = None
+        if ftext is not None:
+            mon.counters["same_hardware_as_a_fresh_instance"] += 1
+            if ftext != texts[0]:
+                a, b = ftext.splitlines(), texts[0].splitlines()
+                diff = next((k for k, (x, y) in enumerate(zip(a, b)) if x != y), min(len(a), len(b)))
+                mon.violations.append({"monitor": "same_hardware_as_a_fresh_instance", "mechanism": f"{kind}:bring-up-elaboration-changes-instance",
+                                       "msg": f"{kind} elaborated once after {P['mid_elaborated_after']} add() calls and then completed "
+                                              f"differs from a fresh instance of the same configuration at RTLIL line {diff}: "
+                                              f"{b[diff] if diff < len(b) else '<eof>'!r} vs {a[diff] if diff < len(a) else '<eof>'!r}",
+                                       "detail": {"params": P}})
     mon.counters["metadata_unchanged"] += 1
     meta1 = meta_fn()
     if meta0 != meta1:
